@@ -72,6 +72,9 @@ pub struct GuestSpec {
     pub sub_delay: u16,
     /// initial CCR is loaded by a SetCcr-style prologue when Some
     pub init_ccr: Option<u8>,
+    /// the initial stack pointer lies this many bytes below the top of the stack region (multiple of 4)
+    #[serde(default)]
+    pub stack_off: u16,
 }
 
 #[derive(Clone, Debug)]
@@ -152,7 +155,7 @@ impl GuestSpec {
             handlers_limit: if self.code_dram { DRAM_DATA } else { RAM_DATA },
             data: if self.data_dram { DRAM_DATA } else { RAM_DATA },
             data_limit: if self.data_dram { DRAM_DATA_LIMIT } else { RAM_STACK_LO },
-            stack_top: if self.stack_dram { DRAM_STACK_TOP } else { RAM_STACK_TOP },
+            stack_top: if self.stack_dram { DRAM_STACK_TOP } else { RAM_STACK_TOP } - (self.stack_off as u32 & 0x3fc),
             stack_lo: if self.stack_dram { DRAM_STACK_LO } else { RAM_STACK_LO },
         }
     }
